@@ -64,7 +64,7 @@ def canon_events(evs):
 class Prop:
     pid = 'C18'
     props_file = 'Props/C18.v'
-    required_theorems = ['subscriber_fold_eq_rib', 'last_event_is_current', 'peer_down_only_after_up',
+    required_theorems = ['subscriber_fold_eq_rib', 'subscriber_fold_eq_rib_no_stale', 'last_event_is_current', 'peer_down_only_after_up',
                          'subscriber_fold_eq_rib_legacy_refuted', 'subscriber_fold_eq_rib_legacy_limit_refuted',
                          'subscriber_fold_eq_rib_legacy_purge_refuted']
     correspondence_name = ('Model/Subscribe.v run_sched/finish vs daemon/src/table_manager.rs TableManager::{subscribe, unsubscribe, insert_route, '
